@@ -27,6 +27,8 @@ func vpTimeoutDur(name string) time.Duration {
 	return d
 }
 
+func vpDurFrom(ns int64) time.Duration { return time.Duration(ns) }
+
 func vpSmallInt(name string) int {
 	v := vpInt(name)
 	vpAssume(vpAnd(v > -(1<<31), v < 1<<31))
